@@ -32,7 +32,7 @@ RULE = ("each run draws a transport mode (plain / stdlib TLS / PyOpenSSL TLS), a
         "twice - unsegmented baseline and segmented variant - and compared. distinct = distinct "
         "time-stripped delivery signatures of the variant; non-trivial = the variant delivered the "
         "client bytes in >= 2 reads")
-PROBES = ["data_after_dispatch", "cut_inside_crlf", "cut_at_titan_size", "handshake_coalesced",
+PROBES = ["cut_inside_multibyte_character", "data_after_dispatch", "cut_inside_crlf", "cut_at_titan_size", "handshake_coalesced",
           "titan_dispatch", "late_extra_reads", "real_upload_handler",
           "client_closes_right_after_request"]
 COMPONENTS = {
@@ -55,7 +55,9 @@ def gen_request(ch):
     content = b""
     size = 0
     if kind == 0:      # plain gemini
-        path = ch.pick("path", ["/", "/a", "/dir/file.gmi", "/q?x=1", "/" + "p" * 300])
+        path = ch.pick("path", ["/", "/a", "/dir/file.gmi", "/q?x=1", "/" + "p" * 300,
+                                "/caf\u00e9", "/na\u00efve/\u20ac.gmi?q=\u65e5\u672c", "/\U0001d11e"],
+                       [3, 3, 3, 3, 2, 2, 2, 1])
         line = f"gemini://{HOST}{path}".encode() + b"\r\n"
     elif kind == 1:    # gemini + trailing garbage
         line = f"gemini://{HOST}/g".encode() + b"\r\n"
@@ -71,7 +73,8 @@ def gen_request(ch):
         size = ch.biased_size("tsize", 1, 6000, [1, 2, 10, 1000, 4096])
         content = ch.bytes_("content", size)
         tok = ch.pick("tok", ["", ";token=sekrit"])
-        line = f"titan://{HOST}/up/f{ch.choose('fname', 3)}.txt;size={size};mime=text/plain{tok}".encode() + b"\r\n"
+        fname = ["f0", "f1", "f2", "na\u00efve-\u20ac"][ch.choose('fname', 4, [3, 3, 3, 2])]
+        line = f"titan://{HOST}/up/{fname}.txt;size={size};mime=text/plain{tok}".encode() + b"\r\n"
     elif kind == 3:    # titan, content + bytes beyond the declared size
         size = ch.biased_size("tsize", 1, 3000, [1, 2, 10, 1000])
         content = ch.bytes_("content", size)
@@ -231,6 +234,9 @@ def run_case(ch, cfg, variant: bool, scratch):
     }
 
 
+_FLAGS = {}
+
+
 def gen_pieces(ch, stream):
     """Split the client stream into write pieces with delays."""
     style = ch.choose("pstyle", 4, [3, 4, 2, 2])
@@ -247,6 +253,12 @@ def gen_pieces(ch, stream):
             for c in (i, i + 1, i + 2):
                 if 0 < c < n and ch.choose("pcrlf", 2):
                     cuts.add(c)
+        # inside a multi-byte character of the request line
+        inner = [c for c in range(1, i if i >= 0 else n) if 0x80 <= stream[c] <= 0xBF][:12]
+        for c in inner:
+            if ch.choose("pmb", 3, [1, 1, 1]) == 1:
+                cuts.add(c)
+                _FLAGS["mb_cut"] = True
         if not cuts:
             cuts.add(1 + ch.choose("pcut", n - 1))
     else:
@@ -285,8 +297,11 @@ def run_one(ch):
             ch.chance("early_close", 0.3):
         cfg["early_close"] = True
         res.stats["client_closes_right_after_request"] += 1
+    _FLAGS.clear()
     base = run_case(ch, cfg, False, fresh_dir("c07a"))
     var = run_case(ch, cfg, True, fresh_dir("c07b"))
+    if _FLAGS.pop("mb_cut", False):
+        res.stats["cut_inside_multibyte_character"] += 1
 
     ctx = dict(mode=mode, request_line=line[:120], line_len=len(line), declared_size=size,
                content_len=len(content), extra_len=len(extra), upload=cfg["upload"],
